@@ -10,5 +10,5 @@ for c in "$@"; do
   grep -v "^WARNING\|^\[facts\]\|^KNOWN-FINDING" /tmp/try_seed.$$.log | grep -v "^VIOLATION" | cut -c1-260 | head -12
 done
 rm -f /tmp/try_seed.$$.log
-git -C /repo checkout -- . 
+git -C /repo checkout -- . ; git -C /repo clean -f -q -- src include
 git -C /repo status --short | grep -v "_build" | head -3
